@@ -1434,6 +1434,121 @@ func deniable(c *ctx, S *suiteT, r *vh.Rng, mode string) {
 	c.rep.Index(id, replay)
 }
 
+// ---------------------------------------------------------------- deniable prover: colluding clique members
+
+// collusion: the honest node 0 follows member 1 only (nil verifier slot for member 2, as in the
+// library's own TestDeniable). Member 2 publishes a junk randomness commitment and reveals, after
+// having seen the other keys, key2 = target ^ key0 ^ key1 (which does not open its commitment);
+// member 1 has pre-simulated its transcript V = c*X + r*B for c = scalar(XOF(target)) and a point
+// X whose logarithm nobody uses. The honest node must refuse the opening (every revealed key is
+// checked against its commitment) and must not accept member 1's statement.
+// With bad == false member 2 opens honestly (control: the simulated transcript is then rejected).
+func collusion(c *ctx, S *suiteT, r *vh.Rng, bad bool) {
+	g := S.s
+	rep := c.rep
+	// honest statement
+	in0 := newInst(S, r)
+	in0.root = in0.genRep(r, true, true)
+	pred0 := in0.root.build()
+	prv0 := pred0.Prover(g, in0.secrets(), ptsOf(in0.ptv), nil)
+	// member 1's statement: X = random point, claimed Rep X = x*B
+	X := g.Point().Mul(in0.nonzeroScalar(r), nil)
+	B := g.Point().Base()
+	pred1 := proof.Rep("X", "x", "B")
+	vrf1 := pred1.Verifier(g, map[string]kyber.Point{"X": X, "B": B})
+	nd := &cnode{i: 0, out: make(chan []byte), in: make(chan [][]byte), rand: g.XOF(r.Bytes(16))}
+	proto := proof.DeniableProver(g, 0, prv0, []proof.Verifier{nil, vrf1, nil})
+	go func() {
+		pan, _ := vh.Try(func() { nd.errs = (func(proof.Context) []error)(proto)(nd) })
+		nd.panicd = pan
+		nd.done = true
+		nd.out <- nil
+	}()
+	recv := func(d time.Duration) ([]byte, bool) {
+		select {
+		case m := <-nd.out:
+			return m, true
+		case <-time.After(d):
+			return nil, false
+		}
+	}
+	mode := "control"
+	if bad {
+		mode = "bad-opening"
+	}
+	rep.Count(fmt.Sprint("collusion", S.name, mode, r.U64()), true)
+	rep.Dist("deniable-collusion:" + mode)
+	rep.Dist("suite:" + S.name)
+	replay := map[string]interface{}{"suite": S.name, "scenario": "honest node follows member 1 only; member 2 reveals last a key that does not open its commitment; member 1 simulated its transcript for the steered challenge", "bad_opening": bad}
+	target := r.Bytes(keySize)
+	cc := g.Scalar().Pick(g.XOF(target))
+	rr := in0.randScalar(r)
+	V := g.Point().Add(g.Point().Mul(cc, X), g.Point().Mul(rr, B))
+	key1 := r.Bytes(keySize)
+	com1 := make([]byte, keySize)
+	g.XOF(key1).Read(com1)
+	key2h := r.Bytes(keySize) // member 2's honest key (control run)
+	com2 := r.Bytes(keySize)  // junk commitment
+	if !bad {
+		g.XOF(key2h).Read(com2)
+	}
+	long := 60 * time.Second
+	m0, ok := recv(long)
+	if !ok || nd.done {
+		return
+	}
+	nd.in <- [][]byte{m0, append(cp(com1), marshalPt(V)...), cp(com2)}
+	k0, ok := recv(long)
+	if !ok || nd.done || len(k0) != keySize {
+		return
+	}
+	key2 := make([]byte, keySize)
+	if bad {
+		for j := range key2 {
+			key2[j] = target[j] ^ k0[j] ^ key1[j]
+		}
+	} else {
+		copy(key2, key2h)
+	}
+	nd.in <- [][]byte{k0, cp(key1), key2}
+	// from here on the clean tree aborts (returns or blocks after "wrong key for commit")
+	short := 2 * time.Second
+	finished := false
+	for step := 0; step < 6; step++ {
+		m, ok := recv(short)
+		if !ok {
+			break
+		}
+		if nd.done {
+			finished = true
+			break
+		}
+		com := make([]byte, keySize)
+		g.XOF(r.Bytes(keySize)).Read(com)
+		select {
+		case nd.in <- [][]byte{m, append(com, marshalSc(rr)...), r.Bytes(keySize)}:
+		case <-time.After(short):
+		}
+	}
+	if !finished {
+		rep.Dist("deniable-collusion-blocked:" + mode)
+		if !bad {
+			// control run with honest openings must terminate
+			rep.Fail("proof.DeniableProver/blocked", fmt.Sprintf("%s: honest node never returned in the control run", S.name), replay)
+		}
+		return
+	}
+	if nd.panicd || len(nd.errs) != 3 {
+		return
+	}
+	if bad && nd.errs[0] == nil {
+		rep.Fail("proof.DeniableProver/unchecked-opening-of-unfollowed-member", fmt.Sprintf("%s: a member whose proof the node does not follow revealed a key that does not match its randomness commitment; the node completed without error", S.name), replay)
+	}
+	if nd.errs[1] == nil {
+		rep.Fail("proof.DeniableProver/witness-free-statement-accepted", fmt.Sprintf("%s: the verifier accepted a simulated transcript for a statement whose secret nobody holds (challenge steered: %v)", S.name, bad), replay)
+	}
+}
+
 // ---------------------------------------------------------------- object history: reuse
 
 // reuseCases: ONE Predicate, ONE Prover value, ONE Verifier value, ONE secrets map and ONE points
@@ -1605,6 +1720,12 @@ func main() {
 	}
 	for i := 0; i < nDen/2; i++ {
 		deniable(c, ed, rng.Fork(), modes[i%len(modes)])
+	}
+	for i := 0; i < 1+nDen/24; i++ {
+		for _, S := range []*suiteT{dl, ed} {
+			collusion(c, S, rng.Fork(), true)
+			collusion(c, S, rng.Fork(), false)
+		}
 	}
 	per := 12
 	vh.WriteShards(o.Out, "c14", cf, per, rep)
